@@ -132,7 +132,7 @@ pub fn gen_untyped(u: &mut Chooser, depth: usize, p: &Pool) -> E {
         _ => {
             if p.structs {
                 let n = u.below(3);
-                E::Struct(u.pick(&["T", "a.b.T", ".T", "google.protobuf.Value"]).to_string(), (0..n).map(|_| (u.pick(&p.fields).clone(), g(u))).collect())
+                E::Struct(u.pick(&["T", "a.b.T", ".T", "google.protobuf.Value", "google.protobuf.Int64Value", "google.protobuf.StringValue", "google.protobuf.BoolValue", "google.protobuf.Duration"]).to_string(), (0..n).map(|_| (if u.chance(1, 3) { "value".to_string() } else { u.pick(&p.fields).clone() }, g(u))).collect())
             } else {
                 g(u)
             }
